@@ -685,7 +685,11 @@ class ExprMixin:
             # (like `_it<k>` for a loop's sequence), so that a clause can speak about the very list the code built
             k = getattr(self, "comp_count", 0)
             self.comp_count = k + 1
-            self.envs[0]["_comp%d" % k] = out.copy() if hasattr(out, "copy") else out
+            snap = out.copy() if hasattr(out, "copy") else out
+            if getattr(out, "filter_of", None) is not None and snap is not out:
+                snap.filter_of = out.filter_of
+            self.envs[0]["_comp%d" % k] = snap
+            self.last_comp = snap
         return out
 
     def comprehension0(self, n, as_list=True):
